@@ -214,7 +214,15 @@ def s_scene(mode, flex_weight=(1, 1), flex_scenes=(0, 1)):
                 e['flex'] = []
                 e['default_curve'] = [0, 0]
         return d
+    extra = {}
+    if mode in ('bin', 'img'):
+        # about 1 scene in 40 gets one counted list blown up to a width boundary of its count field (see COUNT_FIELDS)
+        fields = sorted(COUNT_FIELDS) if mode == 'bin' else sorted(f for f, w in COUNT_FIELDS.items() if w == 'B')
+        which = ['smax', 'smax+1', 'umax', 'over'] if mode == 'bin' else ['smax', 'smax+1', 'umax']
+        boost = st.fixed_dictionaries({'field': st.sampled_from(fields), 'count': st.sampled_from(which)})
+        extra['boost'] = st.tuples(st.integers(0, 39), boost).map(lambda t: t[1] if t[0] == 39 else None)
     return st.fixed_dictionaries({
+        **extra,
         '_flex': st.sampled_from([False] * flex_scenes[0] + [True] * flex_scenes[1]),
         'events': st.lists(ev, max_size=2),
         'actors': st.lists(actor, max_size=2),
@@ -227,6 +235,99 @@ def s_scene(mode, flex_weight=(1, 1), flex_scenes=(0, 1)):
         'scale': st.one_of(st.just([]), st.lists(st.tuples(s_str(mode), s_str(mode)).map(list), max_size=3,
                                                   unique_by=lambda kv: kv[0])),
     }).map(strip)
+
+
+# ------------------------------------------------------------------------------------------------ count-width boundaries
+
+# Every list the BVCD writer stores behind a fixed-width count (from export_binary): struct code of the count field.
+#   Scene '<4sbIB' events, 'B' actors; Actor '<hB' channels; Channel '<hB' events; Curve 'B' ramp samples;
+#   Tag.export_binary 'B' (relative / timing / absolute playback / absolute shifted); Event '<B' flex tracks;
+#   FlexAnimTrack '<hBffh' magnitude samples (signed 16), '<H' direction samples (unsigned 16).
+# (scenes.image itself packs its counts - scenes, strings, sounds - as 32-bit 'i'; no 8/16-bit count there.)
+COUNT_FIELDS = {
+    'scene_events': 'B', 'actors': 'B', 'channels': 'B', 'channel_events': 'B', 'scene_ramp': 'B', 'event_ramp': 'B',
+    'rel_tags': 'B', 'timing_tags': 'B', 'abs_play': 'B', 'abs_shift': 'B', 'flex_tracks': 'B', 'mag': 'h', 'dir': 'H',
+}
+WIDTH_LIMIT = {'B': 255, 'h': 32767, 'H': 65535}      # largest count the field can hold
+WIDTH_SMAX = {'B': 127, 'h': 32767, 'H': 32767}       # largest count a *signed* field of that size could hold
+WIDTH_UMAX = {'B': 255, 'h': 65535, 'H': 65535}
+
+
+def boost_count(boost):
+    width = COUNT_FIELDS[boost['field']]
+    return {'smax': WIDTH_SMAX[width], 'smax+1': WIDTH_SMAX[width] + 1, 'umax': WIDTH_UMAX[width],
+            'over': WIDTH_UMAX[width] + 1}[boost['count']]
+
+
+def expand(d):
+    """Scene descriptor with its 'boost' applied: one counted list repeated (cheap items) to exactly the boundary count."""
+    boost = d.get('boost')
+    d = {k: v for k, v in d.items() if k != 'boost'}
+    if not boost:
+        return d
+    d = json.loads(json.dumps(d))
+    n = boost_count(boost)
+    field = boost['field']
+
+    def fill(lst, blank):
+        item = lst[0] if lst else blank
+        return [item] * n
+
+    def first_event():
+        if not d['events']:
+            d['events'].append(blank_event())
+        return d['events'][0]
+
+    def first_actor():
+        if not d['actors']:
+            d['actors'].append({'name': 'act', 'active': True, 'model': '', 'channels': []})
+        return d['actors'][0]
+
+    def first_track():
+        ev = first_event()
+        if not ev['flex']:
+            ev['flex'].append({'name': 'trk', 'active': True, 'range': [0.0, 1.0], 'mag': [], 'dir': None,
+                               'left': None, 'right': None})
+        return ev['flex'][0]
+
+    sample = [0.5, 128 / 255.0, [3, 4]]
+    if field == 'scene_events':
+        d['events'] = fill(d['events'], blank_event())
+    elif field == 'actors':
+        d['actors'] = fill([], {'name': 'act', 'active': True, 'model': '', 'channels': []})
+    elif field == 'channels':
+        first_actor()['channels'] = fill([], {'name': 'chan', 'active': False, 'events': []})
+    elif field == 'channel_events':
+        act = first_actor()
+        if not act['channels']:
+            act['channels'].append({'name': 'chan', 'active': True, 'events': []})
+        act['channels'][0]['events'] = fill([], blank_event('loop'))
+    elif field == 'scene_ramp':
+        d['ramp'] = dict(d['ramp'], samples=fill(d['ramp']['samples'], sample))
+    elif field == 'event_ramp':
+        ev = first_event()
+        ev['ramp'] = dict(ev['ramp'], samples=fill(ev['ramp']['samples'], sample))
+    elif field == 'rel_tags':
+        ev = first_event()
+        ev[field] = fill(ev[field], ['tg', 51 / 255.0])
+    elif field in ('abs_play', 'abs_shift'):
+        ev = first_event()
+        ev[field] = fill(ev[field], ['tg', 2.5])
+    elif field == 'timing_tags':
+        ev = first_event()
+        ev[field] = fill(ev[field], ['tg', 102 / 255.0, False])
+    elif field == 'flex_tracks':
+        first_track()
+        first_event()['flex'] = fill(first_event()['flex'], None)
+    elif field == 'mag':
+        trk = first_track()
+        trk['mag'] = fill(trk['mag'], sample)
+    elif field == 'dir':
+        trk = first_track()
+        trk['dir'] = fill(trk['dir'] or [], sample)
+    else:
+        raise AssertionError(field)
+    return d
 
 
 # ------------------------------------------------------------------------------------------------ build objects
@@ -501,6 +602,12 @@ def w_scene(s):
 
 def first_diff(want, got, path='scene'):
     """Path and values of the first difference between two shapes (None if equal; bool != int)."""
+    if path == 'scene':
+        try:   # fast path (matters for the 65535-sample boundary cases): identical JSON text means identical shapes
+            if json.dumps(want) == json.dumps(got):
+                return None
+        except (TypeError, ValueError):
+            pass
     if isinstance(want, dict) and isinstance(got, dict):
         for k in want:
             if k not in got:
@@ -813,6 +920,8 @@ def _finder(pool):
 def exec_binary(desc, ctx):
     if 'file' in desc:
         return exec_binary_file(desc, ctx)
+    boost = desc.get('boost')
+    desc = expand(desc)
     classify(desc, ctx)
     strs = pooled_strings(desc)
     if case_variants(strs, strs):
@@ -820,9 +929,24 @@ def exec_binary(desc, ctx):
     scene = build_or_fail(desc, ctx)
     if scene is None:
         return
+    if boost:
+        width = COUNT_FIELDS[boost['field']]
+        n = boost_count(boost)
+        if n > WIDTH_LIMIT[width]:
+            # more items than the count field can hold: the writer must refuse, not truncate / wrap
+            ctx.label('binary:count_over_limit_rejected')
+            try:
+                data, pool = export_binary(scene)
+            except (struct.error, ValueError, OverflowError):
+                return
+            ctx.fail('binary_count_overflow',
+                     f'{n} items in {boost["field"]} (count field {width!r}, max {WIDTH_LIMIT[width]}) were written without an '
+                     f'error: {len(data)} bytes', field=boost['field'])
+            return
+        ctx.label('binary:count_over_signed_max' if n > WIDTH_SMAX[width] else 'binary:count_at_signed_max')
     full = x_scene(desc)
     want = to_binary_form(full)
-    if desc.get('_exact', True):
+    if not boost:
         # in this sub-check's domain quantisation changes no stored number (the generator is already quantised)
         for a, b in zip(_numbers(_strip_text_only(want)), _numbers(_strip_text_only(full))):
             ctx.check(a == b, 'domain_quantised', f'generator emitted a value the binary form would alter: {b!r} -> {a!r}')
@@ -905,6 +1029,10 @@ def fixed_binary(tier):
                        'left': None, 'right': None}]
         d['events'].append(ev)
         yield d
+    # count-width boundaries, one set per counted list (see COUNT_FIELDS)
+    for field in sorted(COUNT_FIELDS):
+        for which in ('smax+1', 'umax', 'over'):
+            yield dict(blank_scene(), boost={'field': field, 'count': which})
     # every flag bit alone, on every event class
     for bit in range(6):
         d = blank_scene()
@@ -1051,7 +1179,9 @@ def save_image(entries, version, as_dict=False):
 def exec_image(desc, ctx):
     from srctools import choreo
     version = desc['version']
-    ents = desc['entries']
+    if any(e['scene'].get('boost') for e in desc['entries']):
+        ctx.label('image:count_boundary_scene')
+    ents = [dict(e, scene=expand(e['scene'])) for e in desc['entries']]
     ctx.label(f'version:{version}', 'entries:' + ('0' if not ents else '1' if len(ents) == 1 else '2+'),
               'arg:dict' if desc['as_dict'] else 'arg:iter')
     for e in ents:
@@ -1227,7 +1357,8 @@ SUBS = [
         must_hit=COMMON_HIT + ('edge', 'scalesettings', 'file:sample.vcd')),
     Sub('choreo_binary', exec_binary, strategy=strategy_binary, fixed=fixed_binary, quick=800, thorough=8000, floor=100,
         quick_shards=16,
-        must_hit=COMMON_HIT + ('flex', 'flex:dir', 'binary:case_variant_strings', 'file:sample.vcd', 'file:test_save_binary.bvcd')),
+        must_hit=COMMON_HIT + ('flex', 'flex:dir', 'binary:case_variant_strings', 'binary:count_over_signed_max',
+                             'binary:count_over_limit_rejected', 'file:sample.vcd', 'file:test_save_binary.bvcd')),
     Sub('choreo_cross', exec_cross, strategy=strategy_cross, quick=600, thorough=6000, floor=100, quick_shards=16,
         must_hit=COMMON_HIT),
     Sub('choreo_image', exec_image_any, strategy=strategy_image, fixed=fixed_image, quick=160, thorough=2000, floor=40,
